@@ -271,10 +271,19 @@ def pooled(rc):
     # p-value from both
     pas = [n for n in walk_no_nested(fn) if isinstance(n, ast.Assign) and dotted(n.targets[0]) == pv]
     good = False
+    guarded0 = False
     for a in pas:
         v = a.value
         t = norm(v)
         rc.ob(f"pooled p-value {t}")
+        # degenerate case: every stratum may contribute 0 degrees of freedom (chi = 0, dof = 0); the chi-square tail at df = 0 is nan in scipy, the
+        # documented answer is p = 1 ("zero statistic with p-value one on exactly independent tables"): the dof == 0 case must be handled explicitly
+        if isinstance(v, ast.IfExp) and any(tm.is_(v.test, t_, {"_d": dof}) is not None for t_ in ("_d == 0", "_d <= 0", "_d < 1", "not _d")) and isinstance(v.body, ast.Constant) and float(v.body.value) == 1.0:
+            guarded0 = True
+            v = v.orelse
+        if isinstance(v, ast.IfExp) and any(tm.is_(v.test, t_, {"_d": dof}) is not None for t_ in ("_d > 0", "_d != 0", "_d >= 1", "_d")) and isinstance(v.orelse, ast.Constant) and float(v.orelse.value) == 1.0:
+            guarded0 = True
+            v = v.body
         if isinstance(v, ast.BinOp) and isinstance(v.op, ast.Sub) and isinstance(v.left, ast.Constant) and v.left.value == 1 and isinstance(v.right, ast.Call) \
                 and norm(v.right.func).endswith("chi2.cdf") and dotted(v.right.args[0]) == chi and dotted(kwarg(v.right, "df") or (v.right.args[1] if len(v.right.args) > 1 else None)) == dof:
             good = True
@@ -282,6 +291,13 @@ def pooled(rc):
             good = True
     if not good:
         rc.fail(fi, fn, f"the pooled p-value must be the chi-square tail of ({chi}, df={dof})", construct="pooled p-value")
+    for s0 in sites(fn, lambda n: isinstance(n, ast.Assign) and dotted(n.targets[0]) == pv and any(isinstance(x, ast.Call) and norm(x.func).endswith(("chi2.cdf", "chi2.sf")) for x in ast.walk(n.value))):
+        if any(any(isinstance(x, ast.Name) and x.id == dof for x in ast.walk(t)) for t, pol in s0.conds):
+            guarded0 = True
+    rc.ob(f"pooled p-value: the dof == 0 case is answered explicitly: {guarded0}")
+    if good and not guarded0:
+        rc.fail(fi, fn, f"when every stratum has 0 degrees of freedom the pooled test is chi = 0, dof = 0 and the chi-square tail at df = 0 is nan: the boolean verdict `nan >= level` is False "
+                "(\"dependent\") exactly where independence holds trivially; the property requires p = 1 on a zero statistic", construct="pooled p-value at dof 0")
     # strata = groups of Z
     src = [it for t, it in s.loops]
     gb = [x for x in src if isinstance(x, ast.Call) and call_name(x) == "groupby"]
@@ -440,6 +456,8 @@ def defuse(rc):
     _sh.defuse_rule(rc, _sh.anchor_files("C19"))
 
 MUTANTS = [
+    dict(kind="break", name="pooled-pvalue-nan-at-dof-zero", file=CI, expect="C19.pooled",
+         old="        p_value = 1.0 if dof == 0 else 1 - stats.chi2.cdf(chi, df=dof)", new="        p_value = 1 - stats.chi2.cdf(chi, df=dof)"),
     dict(kind="break", name="lambda-falsy-fallback", file=CI, expect="C19.lambda",
          old='    if (X in Z) or (Y in Z):\n        raise ValueError(\n            f"The variables X or Y can\'t be in Z. Found {X if X in Z else Y} in Z."\n        )\n\n    # Step 2: Do a simple contingency test if there are no conditional variables.',
          new='    if not lambda_:\n        lambda_ = "cressie-read"\n    if (X in Z) or (Y in Z):\n        raise ValueError(\n            f"The variables X or Y can\'t be in Z. Found {X if X in Z else Y} in Z."\n        )\n\n    # Step 2: Do a simple contingency test if there are no conditional variables.'),
@@ -464,7 +482,7 @@ MUTANTS = [
     dict(kind="break", name="contingency-wrong-multiplier", file=CI, expect="C19.pooled",
          old="x_inv * len(unique_y) + y_inv", new="x_inv * len(unique_x) + y_inv"),
     dict(kind="break", name="pvalue-ignores-dof", file=CI, expect="C19.pooled",
-         old="p_value = 1 - stats.chi2.cdf(chi, df=dof)", new="p_value = 1 - stats.chi2.cdf(chi, df=1)"),
+         old="p_value = 1.0 if dof == 0 else 1 - stats.chi2.cdf(chi, df=dof)", new="p_value = 1.0 if dof == 0 else 1 - stats.chi2.cdf(chi, df=1)"),
     dict(kind="break", name="residual-y-uses-x-coef", file=CI, expect="C19.residuals",
          old="residual_Y = data.loc[:, Y] - data.loc[:, Z].dot(Y_coef)", new="residual_Y = data.loc[:, Y] - data.loc[:, Z].dot(X_coef)"),
     dict(kind="twin", name="lambda-none-default-is-none-test", file=CI,
@@ -472,5 +490,5 @@ MUTANTS = [
     dict(kind="twin", name="verdict-as-if", file=CI,
          old=_PD_BOOL, new='    if not boolean:\n        return chi, p_value, dof\n    if kwargs["significance_level"] <= p_value:\n        return True\n    return False'),
     dict(kind="twin", name="pvalue-sf", file=CI,
-         old="p_value = 1 - stats.chi2.cdf(chi, df=dof)", new="p_value = stats.chi2.sf(chi, df=dof)"),
+         old="p_value = 1.0 if dof == 0 else 1 - stats.chi2.cdf(chi, df=dof)", new="p_value = 1.0 if dof == 0 else stats.chi2.sf(chi, df=dof)"),
 ]
